@@ -169,6 +169,16 @@ def _(repo):
     return defN("rep_base_limit", rust_int(m.group(1)))
 
 
+# the level the streaming compressor hands to compress_segment_configured (StreamingQueueConfig::default();
+# the CLI does not override it - its -c option is parsed and printed but never put into the config)
+@item("cfg_compression_level")
+def _(repo):
+    src = strip_comments(rd(repo, AC))
+    m = _one(r"impl\s+Default\s+for\s+StreamingQueueConfig\s*\{.*?\bcompression_level\s*:\s*(\w+)\s*,", src,
+             "StreamingQueueConfig::default().compression_level", re.S)
+    return defN("cfg_compression_level", rust_int(m.group(1)))
+
+
 # writer (agc_compressor.rs): every pack site pushes marker K after compress_segment_configured and keeps the
 # compressed form iff `compressed.len() < raw`; the raw form is stored with metadata 0
 @item("part_writer")
